@@ -25,15 +25,21 @@ impl Listener<(), Option<usize>> for CoroutineCreator {
             CoroutineState::Complete(_) => {
                 if let Some(pool) = CoroutinePool::current() {
                     //worker协程正常退出
-                    pool.running
-                        .store(pool.get_running_size().saturating_sub(1), Ordering::Release);
+                    _ = pool.running.fetch_update(
+                        Ordering::AcqRel,
+                        Ordering::Acquire,
+                        |v| Some(v.saturating_sub(1)),
+                    );
                 }
             }
             CoroutineState::Cancelled | CoroutineState::Error(_) => {
                 if let Some(pool) = CoroutinePool::current() {
                     //worker协程异常退出，需要先回收再创建
-                    pool.running
-                        .store(pool.get_running_size().saturating_sub(1), Ordering::Release);
+                    _ = pool.running.fetch_update(
+                        Ordering::AcqRel,
+                        Ordering::Acquire,
+                        |v| Some(v.saturating_sub(1)),
+                    );
                     _ = pool.try_grow();
                 }
             }
